@@ -4,6 +4,7 @@ package writer
 
 import (
 	"bytes"
+	"compress/zlib"
 	"fmt"
 	"regexp"
 	"runtime/debug"
@@ -346,6 +347,39 @@ func vfC08Point(p vfC08Pipe, n, content int, payload []byte, thorough bool, pars
 		default:
 			readerBaseOK = true
 			res.outcomes = append(res.outcomes, "reader-decode-ok")
+		}
+		// Un-masking aid: while the writer wraps deflate in the gzip container the reader
+		// rejects every deflate chunk at the header and its inflate path would never run.
+		// Re-run the pipeline with the deflate stage replaced by the zlib container (what the
+		// reader and the format expect) and require the reader to invert that.
+		if err != nil && strings.Contains(err.Error(), "zlib: invalid header") {
+			alt := append([]byte(nil), payload...)
+			altOK := true
+			for _, it := range p.items {
+				if it.kind == 'd' {
+					var zb bytes.Buffer
+					zw, _ := zlib.NewWriterLevel(&zb, it.param)
+					_, _ = zw.Write(alt)
+					_ = zw.Close()
+					alt = zb.Bytes()
+					continue
+				}
+				var aerr error
+				if alt, aerr = it.filter().Apply(alt); aerr != nil {
+					altOK = false
+					break
+				}
+			}
+			if altOK {
+				res.count("reader_decode_of_zlib_container_variant", 1)
+				got, err := cm.ApplyFilters(alt)
+				switch {
+				case err != nil:
+					res.fail("reader-decode-zlib-container-variant/error/"+vfC08Norm(err)+"/"+pclass, mk(map[string]any{"error": err.Error()}))
+				case !bytes.Equal(got, payload):
+					res.fail("reader-decode-zlib-container-variant/wrong-payload/"+p.kinds+"/"+vfC08LenRel(got, payload), mk(map[string]any{"got_len": len(got)}))
+				}
+			}
 		}
 		// the same through the description the reader parses out of the writer's message
 		if parseOK {
